@@ -1247,6 +1247,35 @@ pub fn c04(tier: &str, seed: u64) {
         );
       }
     }
+    // the output buffer is the caller's: a client that reuses one buffer from report to report
+    // (previous randomness, 0xff fill, another epoch's output) holds the same triple
+    {
+      let mg = MessageGenerator::new(SingleMeasurement::new(&m), t, &e);
+      let mut prev = [0u8; 32];
+      MessageGenerator::new(SingleMeasurement::new(&m), t, b"previous epoch").sample_local_randomness(&mut prev);
+      for (what, fill) in [("all 0xff", [0xffu8; 32]), ("all 0x01", [1u8; 32]), ("randomness of the previous epoch's report", prev), ("its own earlier output", {
+        let mut o = [0u8; 32];
+        o.copy_from_slice(&rnd[..32]);
+        o
+      })] {
+        let mut r = fill;
+        mg.sample_local_randomness(&mut r);
+        if r[..] != rnd[..] {
+          fail(
+            "equal_triples_different_randomness_with_reused_buffer",
+            &[("measurement", hex(&m)), ("epoch", hex(&e)), ("threshold", t.to_string()), ("buffer_held", what.to_string()), ("buffer_before", hex(&fill)), ("randomness", hex(&r)), ("with_fresh_buffer", hex(&rnd))],
+          );
+        }
+        // the public digest helper likewise
+        let mut d1 = [0u8; 32];
+        let mut d2 = fill;
+        sta_rs::strobe_digest(&m, &[&e[..]], "oracle.C04", &mut d1);
+        sta_rs::strobe_digest(&m, &[&e[..]], "oracle.C04", &mut d2);
+        if d1 != d2 {
+          fail("digest_depends_on_output_buffer", &[("key", hex(&m)), ("ad", hex(&e)), ("buffer_held", what.to_string()), ("fresh", hex(&d1)), ("reused", hex(&d2))]);
+        }
+      }
+    }
     // mutually combinable: any t of them recover
     let shares: Vec<sta_rs::Share> = clients.iter().rev().take(t as usize).map(|c| c.msg.share.clone()).collect();
     match share_recover(&shares) {
